@@ -1,6 +1,6 @@
 """C11 — graph iteration stays well defined while the graph is edited.
 
-Decided by: Coq theorems (coq/theories/C11/Property.v, 27 theorems, all "Closed under the global context")
+Decided by: Coq theorems (coq/theories/C11/Property.v, 35 theorems, all "Closed under the global context")
 about the hand-written executable model coq/theories/C11/Model.v of onnx_ir._linked_list.DoublyLinkedSet and of
 its generator-based iterators, tied to the code on every run by a correspondence check on schedules
 (interleavings of next() calls of several forward/backward iterators with edits and queries) against the real
@@ -45,9 +45,20 @@ THEOREMS (all proved for all states / schedules, no bounds):
   C11_rec_untouched_once_in_preorder        invariant when no edit touches a U node or a node with a U node
                                            underneath (edit_clear), nodes keep their graph (`home`), nesting is
                                            acyclic (sub_rank) => untouched nodes exactly once in pre-order
-  Nothing is `_partial`.  Scope notes: the `recursive` predicate and RecursiveGraphIterator.__iter__ (which
-  restarts the traversal) are not modelled; node attributes are fixed during a schedule; insertions far from
-  the cursor are stated positionally (C11_insert_position_law) rather than per API call.
+  Deepening round (ProofsR3.v): the `recursive` predicate and the callbacks are in the model: `rnext subs recp`
+  (recp : option (elt -> bool); eff_subs = subgraphs of x if the predicate accepts x else none; trace events
+  CEnter g / CExit g / CRec x, the predicate call being made when the generator RESUMES after x):
+  C11_rec_next_safe, C11_rec_predicate_rule   next() never raises, yielded node is in its graph, the new top frame
+                                           descends into exactly eff_subs x; all earlier rec laws hold for eff_subs
+  C11_rec_predicate_asked_once              recursive(x) is called exactly once per yielded node, at resume, never else
+  C11_rec_callbacks_step / _nested / _balanced / _prefix   for EVERY history of next() calls and edits of any graph
+                                           (no hypothesis on the forest) the enter/exit trace is a legal stack
+                                           history from the graphs held open to the graphs held open afterwards,
+                                           hence properly nested, and balanced when the traversal is exhausted
+  C11_rec_history_never_raises              no history makes rnext stuck
+  Nothing is `_partial`.  Scope notes: RecursiveGraphIterator.__iter__ (which restarts the traversal) is not
+  modelled; node attributes and the predicate are fixed during a schedule (the predicate is a finite table per
+  case); insertions far from the cursor are stated positionally (C11_insert_position_law) rather than per API call.
 READINGS of the English (weaker reading taken by the oracle where ambiguous):
   * "touched" = removed, inserted or moved by an edit (being the anchor of insert_before/after does not touch).
   * position of an iterator whose current node was removed or moved = the gap where it was; "iteration resumes
@@ -71,8 +82,11 @@ TIE (measured in evidence): random state-aware schedules (dls/graph/function kin
   alphabet, 2 iterators, 3 initial configurations; oracle on all schedules one event deeper (457k quick).
   RecursiveGraphIterator: nested If-like graphs (GRAPH and GRAPHS attributes, depth 2, forward and reverse,
   mixed with flat iterators on the subgraphs): every schedule goes through oracle_rec (plain-list cursors
-  composed into the depth-first traversal) AND through the Coq model `ragree` (yield, enter/exit callback trace
-  and all six node lists after every event).
+  composed into the depth-first traversal; callbacks checked as a stack discipline; predicate asked once per
+  node) AND through the Coq model `ragree` (yield, enter/exit/predicate-call trace and all six node lists after
+  every event).  Iterator variants, all in the Coq correspondence: RecursiveGraphIterator(graph|Function,
+  recursive=table|None, reverse, callbacks|none), reversed(RecursiveGraphIterator(...)), Graph.all_nodes(),
+  Function.all_nodes().
 MODELLED NOT VERIFIED: generator semantics; None values (TypeError before any mutation); owning_list check (a
   single list: boxes reachable from its root are its own); the id->box dict (derived: find_box); slices.
 OBSERVATION outside C11 (C01/C06 family, not reported here): Graph.insert_after(absent_anchor, [n]) leaves
@@ -98,6 +112,9 @@ with a shrunk concrete replay; "coq" = the Coq correspondence (random and/or exh
 Their shrunk witnesses are kept in corpus/C11/1x-*.json.  Unchanged tree: quick exits 0 for VERIF_SEED=0,1,2,3.
 After the recursive Coq model was added: seeded/C11-m3 (reverse recursive traversal walks graph[::-1]) gives
 VIOLATION replays from oracle_rec AND broken `correspondence:RecursiveGraphIterator-model` (3 diverging traces).
+Deepening round: seeded C11-m1, -m3, -r2m3, -r3m3, -r4m1, -r4m2 re-evaluated with tools/seed_eval.py: all detected
+with input; seeded C15-r4m1 (enter_graph once / exit_graph twice for GRAPHS attributes) gives a C11 replay
+"exit_graph(5) but the open graphs are [0]" from the callback discipline of oracle_rec, and breaks `ragree`.
 """
 
 from __future__ import annotations
@@ -1256,8 +1273,9 @@ def run(ck) -> None:
              "Graph.remove(iterable) into list-level edits (spec_sort)",
              "hand-written model C11/Model.v of _linked_list.py tied by correspondence only (no translation)",
              "modelled not verified: CPython generator semantics (Fresh/Parked/Done, b.next read at resume time, "
-             "yield from = a stack of generators); the `recursive` predicate of RecursiveGraphIterator and its "
-             "__iter__ restart are outside the model; Graph.sort order (C12) enters as the permutation passed to extend")
+             "yield from = a stack of generators); RecursiveGraphIterator.__iter__ (restart) is outside the model, "
+             "node attributes and the `recursive` predicate are fixed during a schedule; Graph.sort order (C12) "
+             "enters as the permutation passed to extend")
     ck.assumptions += ["values are hashable and never None; one DoublyLinkedSet per schedule (no cross-list moves)",
                        "CPython generators: a suspended generator resumes after its yield; exhausted generators stay exhausted"]
     ck.coverage["rule"] = ("non-trivial = a next() call whose iterator is parked on an erased box (tombstone chain), "
